@@ -302,7 +302,21 @@ def e3b_harnesses():
         b = pickle.loads(pickle.dumps(a.sindex))
         return tuple(sorted(int(v) for v in b.intersects((1.0, 1.0, 6.0, 6.0))))
 
+    def parr():
+        return L.make_array("point", [(0, 0), (1, 5), None, (3, 1), (7, 7), (2, 2), None, (9, 2)], "float64")
+
+    def ib_pts(a):
+        return tuple(np.asarray(a.intersects_bounds((-0.5, -0.5, 3.5, 5.5))).tolist())
+
+    def xy_pts(a):
+        return (tuple(np.nan_to_num(np.asarray(a.x), nan=-9).tolist()), tuple(np.nan_to_num(np.asarray(a.y), nan=-9).tolist()))
+
+    def cx_pts(a):
+        return tuple(map(repr, a.cx[-0.5:3.5, -0.5:5.5].data.to_pylist()))
+
     H = {
+        "points:ib|ib": (parr, [ib_pts, ib_pts]),
+        "points:cx|xy|ib": (parr, [cx_pts, xy_pts, ib_pts]),
         "array:cx|query": (arr, [cx_arr, q_arr]),
         "array:build|cx": (arr, [build, cx_arr]),
         "array:query|covers": (arr, [q_arr, co_arr]),
@@ -834,7 +848,7 @@ def plan_for(T):
 
 
 def e3b_names():
-    return ["array:cx|query", "array:build|cx", "array:query|covers", "array:cx|cx", "array:pickle|query",
+    return ["points:ib|ib", "points:cx|xy|ib", "array:cx|query", "array:build|cx", "array:query|covers", "array:cx|cx", "array:pickle|query",
             "array:total_bounds|query|cx", "frame:cx|series.cx", "frame:build|cx", "dask:cx|partition_bounds", "dask:cx|cx",
             "dask:total_bounds|cx"]
 
